@@ -50,6 +50,8 @@ fn composite_samples() -> Vec<Value> {
     let g_meta = Grid::make_from_dicts_with_meta(vec![d2.clone()], meta.clone());
     let mut g_colmeta = Grid::make_from_dicts(vec![d2.clone()]);
     g_colmeta.columns[0].meta = Some(meta.clone());
+    // a column may carry a tag called `ver` (only the grid's own meta reserves that name in Hayson)
+    if g_colmeta.columns.len() > 1 { let mut m = meta.clone(); m.insert("ver".into(), Value::make_str("1.2")); g_colmeta.columns[1].meta = Some(m); }
     let mut meta2 = meta.clone();
     meta2.insert("m".into(), Value::Marker);
     meta2.insert("n".into(), Value::make_int(3));
